@@ -24,6 +24,9 @@ func sentinelSnapshot() map[string]vt.StatusTriple {
 	for name, s := range erpc.VerifSentinels() {
 		out[name] = vt.TripleOf(s)
 	}
+	// the exported shared statuses of the shipped auth plugin
+	out["auth.MultiRecvErr"] = vt.TripleOf(auth.MultiRecvErr)
+	out["auth.MultiSendErr"] = vt.TripleOf(auth.MultiSendErr)
 	return out
 }
 
@@ -145,6 +148,8 @@ var c15Steps = []string{
 	"reply-404-write-times-out", "reply-400-write-times-out", "reply-500-write-times-out",
 	"redial-fails-then-traffic", "redial-fails-then-traffic",
 	"proxy-call-down", "proxy-push-down", "proxy-call-dies", "proxy-call-ok", "auth-reject", "secure-wrong-key", "overload-reject",
+	// parameterised (c15auth_test.go): the other side of an authentication exchange hangs up
+	c15AuthHangup, c15AuthHangup, c15AuthHangup, c15AuthHangup, c15AuthHangup,
 }
 
 func (x *c15World) step(name string) {
@@ -358,10 +363,16 @@ func (x *c15World) step(name string) {
 		p := x.w.Peer(erpc.PeerConfig{}, overloader.New(overloader.LimitConfig{MaxConn: 1}))
 		x.w.Connect(x.cli, p, x.proto, nil)
 		x.w.Connect(x.cli, p, x.proto, nil)
+	default:
+		if as, ok := parseC15AuthStep(name); ok {
+			x.authHangupStep(as)
+			return
+		}
+		panic("harness: unknown C15 step " + name)
 	}
 }
 
-const ruleC15 = "history = 1-12 steps drawn from {successful call, call/push on a closed session, unknown route, undecodable body, handler panic, frame of unsupported type, PreSend/PreCall outside the accept phase, a handler answering with a status built by NewStatusByCodeText(404/400/102/500) and completed in place with its own cause and message, refused dial, dial that runs into a 1 ns DialTimeout, established connection refused by a PostDial hook with a timeout-flavoured cause, connection cut while a call waits, connection ending with a non-EOF read error while a call waits (truncated reply, over-limit garbage, session-age read deadline), error replies (404 / 400 / 500) that cannot be written because the reply context expired, calls and pushes on a redial-enabled session whose server is gone for good (during the redial and after it gave up), proxied call and proxied push with the backend session closed, proxied call whose backend connection is cut mid-call, proxied call that succeeds, auth rejection, secure plugin with a wrong key, overloader rejection}; oracle (a): code/msg/cause of every predefined status (verif accessor) is identical before the history and after every step; oracle (b): a fixed battery of failing operations on fresh sessions yields identical triples before and after the history; non-trivial = the history contains a step that hands a predefined status by pointer to plugin or user code (proxy with backend down, closed-session call/push); distinct by history"
+const ruleC15 = "history = 1-12 steps drawn from {successful call, call/push on a closed session, unknown route, undecodable body, handler panic, frame of unsupported type, PreSend/PreCall outside the accept phase, a handler answering with a status built by NewStatusByCodeText(404/400/102/500) and completed in place with its own cause and message, refused dial, dial that runs into a 1 ns DialTimeout, established connection refused by a PostDial hook with a timeout-flavoured cause, connection cut while a call waits, connection ending with a non-EOF read error while a call waits (truncated reply, over-limit garbage, session-age read deadline), error replies (404 / 400 / 500) that cannot be written because the reply context expired, calls and pushes on a redial-enabled session whose server is gone for good (during the redial and after it gave up), proxied call and proxied push with the backend session closed, proxied call whose backend connection is cut mid-call, proxied call that succeeds, auth rejection, an authentication exchange whose other side hangs up (generated: a peer with the auth checker plugin whose client - in-memory or loopback TCP - closes cleanly or resets before sending anything / after a generated part of its AUTH_CALL frame / after the whole AUTH_CALL without waiting for the reply, the checker function receiving once and accepting or rejecting, receiving twice and returning the second status or its own, not receiving, or using the receive function after the accept phase; a peer dialling with the bearer plugin whose scripted server closes or resets before reading, after the AUTH_CALL without replying, or after a generated part of the AUTH_REPLY, the bearer function sending once, twice, or not at all), secure plugin with a wrong key, overloader rejection}; oracle (a): code/msg/cause of every predefined status (verif accessor, plus the auth plugin's exported MultiRecvErr / MultiSendErr) is identical before the history and after every step; oracle (b): a fixed battery of failing operations on fresh sessions yields identical triples before and after the history; non-trivial = the history contains a step that hands a predefined status by pointer to plugin or user code (proxy with backend down, closed-session call/push, failed receive / send inside a checker or bearer function); distinct by history"
 
 func TestC15StatusImmutable(t *testing.T) {
 	rec := vt.NewRec(t, "C15", "immutable", ruleC15)
@@ -371,12 +382,13 @@ func TestC15StatusImmutable(t *testing.T) {
 		newLib()
 		proto := rapid.SampledFrom(protos).Draw(t, "proto")
 		steps := rapid.SliceOfN(rapid.SampledFrom(c15Steps), 1, 12).Draw(t, "steps")
+		steps = refineC15Steps(t, steps)
 		nt := false
 		for _, s := range steps {
-			if strings.HasPrefix(s, "proxy-") && s != "proxy-call-ok" || strings.HasPrefix(s, "closed-") || strings.HasSuffix(s, "-mid-call") || strings.HasSuffix(s, "-times-out") {
+			if strings.HasPrefix(s, "proxy-") && s != "proxy-call-ok" || strings.HasPrefix(s, "closed-") || strings.HasSuffix(s, "-mid-call") || strings.HasSuffix(s, "-times-out") || strings.HasPrefix(s, c15AuthHangup) {
 				nt = true
 			}
-			rec.Class("step="+s, 1)
+			rec.Class("step="+c15StepClass(s), 1)
 		}
 		rec.Case(proto.Name+"|"+strings.Join(steps, ","), nt, "proto="+proto.Name)
 		if rec.WantSample() && nt {
